@@ -214,6 +214,14 @@ def _preserve_units(unit1, unit2=None):
     if unit2 is None or unit1.dimensions is not temperature:
         return 1, unit1
     if unit1.base_offset == 0.0 and unit2.base_offset != 0.0:
+        if unit1.base_value != unit2.base_value:
+            # the data are combined in unit1's scale, so they cannot be
+            # relabelled as readings on a scale with another degree size
+            raise InvalidUnitOperation(
+                "Quantities with units of Fahrenheit or Celsius "
+                "cannot be multiplied, divided, subtracted or "
+                "added with data that has different units."
+            )
         return 1, unit2
     return 1, unit1
 
